@@ -104,7 +104,9 @@ struct Tape {
     size_t pos[S_N];
     Rng rng[S_N];
     bool replay = false;
+    bool explore_stream[S_N] = {false, false, false, false, false, false}; // hybrid replay: these streams are generated
     int record_fd = -1;
+    bool replayed(int s) const { return replay && !explore_stream[s]; }
     void reset_explore(uint64_t seed, uint64_t index) {
         replay = false;
         for (int i = 0; i < S_N; ++i) {
@@ -135,7 +137,7 @@ static void tape_record(int s, uint32_t val) {
 
 // raw: in replay mode return the recorded value, in explore mode return `gen` and record it
 static uint32_t tape_next(int s, uint32_t gen) {
-    if (g_tape.replay) {
+    if (g_tape.replayed(s)) {
         uint32_t val = 0;
         if (g_tape.pos[s] < g_tape.v[s].size()) { val = g_tape.v[s][g_tape.pos[s]]; }
         ++g_tape.pos[s];
@@ -150,7 +152,7 @@ bool replaying() { return g_tape.replay; }
 uint32_t choose(Stream s, uint32_t n) {
     if (n <= 1 || g_quiet > 0) { return 0; }
     uint32_t gen = 0;
-    if (!g_tape.replay) { gen = static_cast<uint32_t>(g_tape.rng[s].next() % n); }
+    if (!g_tape.replayed(s)) { gen = static_cast<uint32_t>(g_tape.rng[s].next() % n); }
     return tape_next(s, gen) % n;
 }
 
@@ -289,6 +291,9 @@ void note(const std::string& s) {
 void set_sample(const std::string& j) { g_res.sample = j; }
 void set_nontrivial(bool v) { g_res.nontrivial_override = v ? 1 : 0; }
 int current_thread() { return t_self ? t_self->id : 0; }
+void name_thread(const char* role) {
+    if (t_self) { snprintf(t_self->name, sizeof(t_self->name), "%s", role); }
+}
 uint64_t event_seq() { return g_event_seq; }
 uint64_t steps() { return g_steps; }
 int64_t now_ns() { return g_now; }
@@ -382,9 +387,11 @@ static std::string blocked_signature() {
     for (auto* t : g_ths) {
         if (t->st == DONE) { continue; }
         std::string n = t->name[0] ? t->name : (t->id == 0 ? "main" : "thread");
+        if (n.size() > 1 && n[0] == 'T' && n[1] >= '0' && n[1] <= '9') { n = "thread"; } // unnamed: no ids in signatures
         parts.push_back(n + ":" + st_name[t->st]);
     }
     std::sort(parts.begin(), parts.end());
+    parts.erase(std::unique(parts.begin(), parts.end()), parts.end());
     std::string s;
     for (auto& p : parts) { if (!s.empty()) { s += ","; } s += p; }
     return s;
@@ -498,7 +505,7 @@ static Th* pick_next(Th* me) {
             } else {
                 ++g_choice_points;
                 uint32_t gen = 0;
-                if (!g_tape.replay) { gen = strategy_pick(cand, cur_enabled); }
+                if (!g_tape.replayed(S_SCHED)) { gen = strategy_pick(cand, cur_enabled); }
                 idx = tape_next(S_SCHED, gen) % static_cast<uint32_t>(cand.size());
             }
         }
@@ -530,6 +537,13 @@ static void schedule_exit(Th* me) {
 }
 
 static inline bool sim_thread() { return g_active && t_self != nullptr; }
+
+// Scheduling point *before* an operation takes effect (G held): separates the plain/atomic accesses
+// that precede the call from the call itself, e.g. "predicate evaluated, not yet waiting".
+static inline void pre_point(Th* me) {
+    me->st = RUN;
+    schedule(me);
+}
 
 void sched_point(const char* name) {
     if (!sim_thread()) { return; }
@@ -651,12 +665,13 @@ static void* trampoline(void* p) {
 static int sim_pthread_create(pthread_t* th, const pthread_attr_t* attr, void* (*fn)(void*), void* arg) {
     lockG();
     Th* me = t_self;
+    pre_point(me);
     auto* t = new Th;
     t->id = static_cast<int>(g_ths.size());
     t->fn = fn;
     t->arg = arg;
     t->st = RUN;
-    t->prio = static_cast<int64_t>(g_tape.replay ? 0 : (g_tape.rng[S_SCHED].next() % 1000000));
+    t->prio = static_cast<int64_t>(g_tape.replayed(S_SCHED) ? 0 : (g_tape.rng[S_SCHED].next() % 1000000));
     if (attr) {
         int ds = 0;
         pthread_attr_getdetachstate(attr, &ds);
@@ -764,6 +779,9 @@ static int sim_mutex_unlock(pthread_mutex_t* m) {
         unlockG();
         return 0;
     }
+    ++ms->count;
+    pre_point(me);
+    --ms->count;
     ms->owner = -1;
     me->st = RUN;
     schedule(me);
@@ -787,6 +805,7 @@ static int sim_cond_wait_common(pthread_cond_t* c, pthread_mutex_t* m, bool time
     Th* me = t_self;
     MutexSt* ms = mutex_of(m);
     log_op(timed ? 8 : 7, c);
+    pre_point(me); // still holding the mutex, not yet a waiter: the classic lost wake-up window
     if (ms->owner == me->id) {
         ms->owner = -1;
         ms->count = 0;
@@ -820,6 +839,7 @@ static int sim_cond_signal(pthread_cond_t* c, bool all) {
     lockG();
     Th* me = t_self;
     log_op(all ? 10 : 9, c);
+    pre_point(me);
     std::vector<Th*> w;
     for (auto* t : g_ths) {
         if (t->st == BLK_CV && t->obj == c && !t->signaled) { w.push_back(t); }
@@ -846,6 +866,7 @@ static long sim_futex(int* addr, int op, int val, const struct timespec* timeout
         lockG();
         Th* me = t_self;
         log_op(11, addr);
+        pre_point(me);
         if (__atomic_load_n(addr, __ATOMIC_SEQ_CST) != val) {
             me->st = RUN;
             schedule(me);
@@ -884,6 +905,7 @@ static long sim_futex(int* addr, int op, int val, const struct timespec* timeout
         lockG();
         Th* me = t_self;
         log_op(12, addr);
+        pre_point(me);
         std::vector<Th*> w;
         for (auto* t : g_ths) {
             if (t->st == BLK_FUTEX && t->obj == addr && !t->signaled) { w.push_back(t); }
@@ -940,21 +962,20 @@ static int sim_once(pthread_once_t* ctrl, void (*init)(void)) {
         me->st = RUN;
     }
     unlockG();
+    // No scheduling point on the uncontended paths: a process-wide control (e.g. libgcc's unwinder
+    // table) is initialised only once per process, and a run must not depend on whether an earlier
+    // run of the same worker process already did that.
     try {
         init();
     } catch (...) {
         lockG();
         g_once[ctrl].st = ONCE_NEW;
-        me->st = RUN;
-        schedule(me);
         unlockG();
         throw;
     }
     lockG();
     g_once[ctrl].st = ONCE_DONE;
     *reinterpret_cast<volatile int*>(ctrl) = 2;
-    me->st = RUN;
-    schedule(me);
     unlockG();
     return 0;
 }
@@ -979,6 +1000,17 @@ static bool load_replay(const std::string& path, RunInfo& info) {
         if (key == "mode") { info.mode = rest; }
         else if (key == "seed") { info.seed = strtoull(rest.c_str(), nullptr, 10); }
         else if (key == "index") { info.index = strtoull(rest.c_str(), nullptr, 10); }
+        else if (key == "explore") {
+            // hybrid replay: "explore <stream> <seed>" - this stream is generated by the PRNG
+            char* p = const_cast<char*>(rest.c_str());
+            long st = strtol(p, &p, 10);
+            uint64_t sd = strtoull(p, &p, 10);
+            if (st >= 0 && st < S_N) {
+                g_tape.explore_stream[st] = true;
+                g_tape.rng[st].seed(sd * 0x9e3779b97f4a7c15ULL + static_cast<uint64_t>(st));
+                g_tape.v[st].clear();
+            }
+        }
         else if (key == "param") {
             size_t sp2 = rest.find(' ');
             if (sp2 != std::string::npos) { info.params[rest.substr(0, sp2)] = rest.substr(sp2 + 1); }
@@ -995,6 +1027,9 @@ static bool load_replay(const std::string& path, RunInfo& info) {
     }
     free(line);
     fclose(f);
+    for (int i = 0; i < S_N; ++i) {
+        if (g_tape.explore_stream[i]) { g_tape.v[i].clear(); }
+    }
     return true;
 }
 
